@@ -52,6 +52,11 @@ func customise(e *chain.Entry, shapes []rshape, hdr func(h *core.Header)) (*core
 
 // checkReader reads block sb back through every Reader method.
 func (h *harness) checkReader(bc *blockchain.Blockchain, d db.KeyValueStore, sb *storedBlock, isHead bool, cfg string) bool {
+	return h.checkReaderL("reader", bc, d, sb, isHead, cfg)
+}
+
+// checkReaderL: level = first component of the violation keys (names the phase / class of history the read belongs to).
+func (h *harness) checkReaderL(level string, bc *blockchain.Blockchain, d db.KeyValueStore, sb *storedBlock, isHead bool, cfg string) bool {
 	ok := true
 	b := sb.E.Block
 	c := &blockCase{Label: fmt.Sprintf("%s block %d (%s) rshapes=%v", cfg, b.Number, describe(sb.E), sb.RS), Hdr: b.Header, Txs: b.Transactions, Rcs: b.Receipts, SU: sb.E.SU, CM: sb.CM}
@@ -60,7 +65,7 @@ func (h *harness) checkReader(bc *blockchain.Blockchain, d db.KeyValueStore, sb 
 	}
 	bad := func(acc, dd string) {
 		ok = false
-		h.bad("reader", acc, dd, c, cfg, "")
+		h.bad(level, acc, dd, c, cfg, "")
 	}
 	chk := func(acc, dd string) {
 		if dd != "" {
